@@ -158,6 +158,7 @@ def run_stack(script):
         "loop_exceptions": [str(c.get("exception") or c.get("message")) for c in loop.exceptions],
         "errors": r.errors,
         "iter": getattr(r, "iter_result", None),
+        "shutdown_error": r.shutdown_info.get("error"),
     }
 
 
@@ -178,6 +179,9 @@ def oracle_stack(script, res):
         return "exception escaped into the transport: " + errs[0], "escaped"
     if res["loop_exceptions"]:
         return "exception reached the event loop: " + res["loop_exceptions"][0], "loop-exception"
+    if res.get("shutdown_error") and sum(1 for e in script["events"] if e[0] == "X") == 1:
+        # (a second Context.shutdown() is the caller's misuse and C18's business)
+        return "Context.shutdown() raised " + res["shutdown_error"], "shutdown-raised"
     loose = any(c.startswith(("OC@", "C@")) for c in res["concrete"])
     if loose:
         return oracle_stack_app(script, res)
